@@ -8,7 +8,9 @@ use slotted_egraphs::*;
 use std::collections::{BTreeMap, BTreeSet};
 
 fn gen_name(r: &mut Rng, fresh_hint: u32) -> String {
-    match r.below(14) {
+    match r.below(15) {
+        // names handed over through the API may contain blanks: "x " is a name of its own, not another spelling of "x"
+        13 => ["x ", " x", "x\t", "a b", " ", "abc ", "\u{a0}x", "y\n", " f1", "f1 ", "7 ", " 7"][r.below(12)].to_string(),
         0 => ["x", "y", "abc", "f", "ff", "fx", "F1", "$", "a$b", "?q"][r.below(10)].to_string(),
         1 => format!("f{}", r.below(12)),                       // f<n> around small counters
         2 => format!("f{}", fresh_hint.saturating_sub(2) + r.below(6) as u32), // around the current fresh counter
